@@ -138,7 +138,7 @@ PROPS = {
     'C01': {
         'oracles': ['C01'], 'bv_decide': True,
         'geoms': {'quick': ['default', 'th1'], 'thorough': ALLG},
-        'runs': {'quick': [conc(12, 60, 30, 0), seq('mixed', 20, 150)],
+        'runs': {'quick': [conc(12, 60, 30, 0), seq('mixed', 20, 150), seq('lower', 30, 150)],
                  'thorough': [conc(150, 400, 200, 0, bound=3), seq('mixed', 300, 300), seq('lower', 300, 300)]},
         'rule': T_RULE + ('Oracle: every block returned by any thread is aligned, in range, equal to the target if one was given, and '
                           'disjoint from every block held by any thread at that moment; at the quiescent end the metadata equals the '
